@@ -310,6 +310,7 @@ type Contract struct {
 	GhostSets [][2]string // location, expression: ghost assignments executed at function exit
 	LeafEnsures  []*Clause // (interface methods) hold only for receivers implemented outside the package
 	LeafModifies []string
+	Constructs   []string // parameters whose object this function is (still) constructing: its type invariant is owed at return, not before
 }
 
 type SpecFn struct {
@@ -343,6 +344,8 @@ type SpecFile struct {
 	Consts    [][3]string // const checks: name, expected value, props
 	GuardedBy  [][4]string // struct, map field, mutex field, props
 	MapInvs    [][5]string // struct, map field, expression over k and v, props, file:line
+	FieldInvs  [][5]string // struct, field, expression over v (single-field invariant), props, file:line
+	Frozen     [][3]string // struct, field, props: written only on objects allocated by the writing function
 	GlobalInvs [][2]string // facts about package-level variables (established by initialisation), file:line
 	TypeInvs  [][3]string // struct type, expression over "self", file:line
 }
@@ -502,6 +505,25 @@ func ParseSpecLines(sf *SpecFile, file string, lines []string, trusted bool) err
 			}
 			tf := strings.SplitN(fields[1], ".", 2)
 			sf.MapInvs = append(sf.MapInvs, [5]string{tf[0], tf[1], strings.TrimSpace(rest[len(fields[1]):]), strings.Join(tags, ","), l.at})
+		case "frozen":
+			// frozen[C08] Dictionary.sb Dictionary.fst   (set during construction only)
+			if len(fields) < 2 {
+				return errf("frozen[props] T.field ...")
+			}
+			for _, tfs := range fields[1:] {
+				tf := strings.SplitN(tfs, ".", 2)
+				if len(tf) != 2 {
+					return errf("frozen[props] T.field ...")
+				}
+				sf.Frozen = append(sf.Frozen, [3]string{tf[0], tf[1], strings.Join(tags, ",")})
+			}
+		case "fieldinv":
+			// fieldinv[C11] countHashWriter.n v >= 0   (checked at every store to the field, and of the zero value; holds of every cell)
+			if len(fields) < 3 || !strings.Contains(fields[1], ".") {
+				return errf("fieldinv[props] T.field expr")
+			}
+			tf := strings.SplitN(fields[1], ".", 2)
+			sf.FieldInvs = append(sf.FieldInvs, [5]string{tf[0], tf[1], strings.TrimSpace(rest[len(fields[1]):]), strings.Join(tags, ","), l.at})
 		case "globalinv":
 			sf.GlobalInvs = append(sf.GlobalInvs, [2]string{rest, l.at})
 		case "typeinv":
@@ -611,6 +633,8 @@ func ParseSpecLines(sf *SpecFile, file string, lines []string, trusted bool) err
 					}
 				}
 				cur.FramesProps = append(cur.FramesProps, tags...)
+			case "constructs":
+				cur.Constructs = append(cur.Constructs, strings.Fields(rest)...)
 			case "pure":
 				cur.Pure = true
 				cur.HasMod = true
